@@ -225,6 +225,49 @@ Proof.
 Qed.
 
 (* ------------------------------------------------------------------------------------ *)
+(* WebSocket clients: the registered ones among the connected ones *)
+Lemma ws_reg_keys_in c cl : In c (map fst (ag_ws_reg cl)) -> In c (map fst cl).
+Proof.
+  induction cl as [|[c' [e'|]] r IH]; cbn [ag_ws_reg map fst In]; [tauto| |].
+  - intros [H|H]; [now left | right; now apply IH].
+  - intros H. right. now apply IH.
+Qed.
+
+Lemma ws_reg_nodup cl : NoDup (map fst cl) -> NoDup (map fst (ag_ws_reg cl)).
+Proof.
+  induction cl as [|[c' [e'|]] r IH]; cbn [ag_ws_reg map fst]; intros ND; [constructor| |];
+    inversion ND as [|? ? Hni ND']; subst.
+  - constructor; [|now apply IH]. intros H. apply Hni. now apply ws_reg_keys_in.
+  - now apply IH.
+Qed.
+
+Definition ws_client_reg (cl : list (N * option ag_eid)) (c : N) (e : ag_eid) : bool :=
+  match ag_get c cl with Some (Some e') => ag_eid_eqb e e' | _ => false end.
+
+Lemma ws_client_reg_eq cl c e :
+  NoDup (map fst cl) -> ws_client_reg cl c e = client_reg (ag_ws_reg cl) c e.
+Proof.
+  unfold ws_client_reg, client_reg.
+  induction cl as [|[c' [e'|]] r IH]; cbn [ag_ws_reg ag_get map fst]; intros ND; [reflexivity| |];
+    inversion ND as [|? ? Hni ND']; subst.
+  - destruct (c =? c'); [reflexivity | now apply IH].
+  - destruct (c =? c') eqn:E; [|now apply IH].
+    apply N.eqb_eq in E. subst c'.
+    assert (Hn : ag_get c (ag_ws_reg r) = None).
+    { apply ag_get_none_notin. intros H. apply Hni. now apply ws_reg_keys_in. }
+    now rewrite Hn.
+Qed.
+
+Lemma ws_reg_guard cl c e :
+  ws_client_reg cl c e = true -> existsb (ag_eid_eqb e) (map snd (ag_ws_reg cl)) = true.
+Proof.
+  unfold ws_client_reg.
+  induction cl as [|[c' [e'|]] r IH]; cbn [ag_ws_reg ag_get map snd existsb]; [discriminate| |].
+  - destruct (c =? c'); [intros ->; reflexivity|]. intros H. rewrite (IH H). apply orb_true_r.
+  - destruct (c =? c'); [discriminate | exact IH].
+Qed.
+
+(* ------------------------------------------------------------------------------------ *)
 (* well-formedness: labels / uuids / client labels are keys of maps *)
 Definition wf_agent (g : ag_agent) : Prop :=
   match g with
@@ -288,20 +331,21 @@ Proof.
       apply hands_map_none. intros x. cbn [ag_recipient_eqb]. now rewrite E.
   - (* WebSocket *)
     cbn [wf_agent] in WF.
+    pose proof (ws_reg_nodup cl WF) as WFr. set (rc := ag_ws_reg cl) in *.
     destruct r as [a0|a0|a0 u|a0 u]; cbn [ag_registered ag_get].
-    1,2,3: assert (ag_hands_to _ (snd (if existsb (ag_eid_eqb (ab_dst b)) (map snd cl)
-             then (AWs cl, map (fun p => AOHand (RWs a (fst p)) b) (filter (ag_dst_match b) cl))
+    1,2,3: assert (ag_hands_to _ (snd (if existsb (ag_eid_eqb (ab_dst b)) (map snd rc)
+             then (AWs cl, map (fun p => AOHand (RWs a (fst p)) b) (filter (ag_dst_match b) rc))
              else (AWs cl, []))) = []) as ->
-        by (destruct (existsb _ (map snd cl)); cbn [snd]; [apply hands_map_none; intros x; reflexivity | reflexivity]);
+        by (destruct (existsb _ (map snd rc)); cbn [snd]; [apply hands_map_none; intros x; reflexivity | reflexivity]);
       destruct (a0 =? a); reflexivity.
     destruct (a0 =? a) eqn:E.
-    + fold (client_reg cl u (ab_dst b)).
-      destruct (existsb (ag_eid_eqb (ab_dst b)) (map snd cl)) eqn:G; cbn [snd].
-      * apply (clients_hands (RWs a0 u) (RWs a) u b cl cl WF (Permutation_refl _)).
+    + fold (ws_client_reg cl u (ab_dst b)). rewrite (ws_client_reg_eq cl u (ab_dst b) WF). fold rc.
+      destruct (existsb (ag_eid_eqb (ab_dst b)) (map snd rc)) eqn:G; cbn [snd].
+      * apply (clients_hands (RWs a0 u) (RWs a) u b rc rc WFr (Permutation_refl _)).
         intros x. cbn [ag_recipient_eqb]. now rewrite E.
-      * destruct (client_reg cl u (ab_dst b)) eqn:CR; [|reflexivity].
-        rewrite (client_reg_guard cl cl u _ (Permutation_refl _) CR) in G. discriminate.
-    + destruct (existsb (ag_eid_eqb (ab_dst b)) (map snd cl)); cbn [snd]; [|reflexivity].
+      * destruct (client_reg rc u (ab_dst b)) eqn:CR; [|reflexivity].
+        rewrite (client_reg_guard rc rc u _ (Permutation_refl _) CR) in G. discriminate.
+    + destruct (existsb (ag_eid_eqb (ab_dst b)) (map snd rc)); cbn [snd]; [|reflexivity].
       apply hands_map_none. intros x. cbn [ag_recipient_eqb]. now rewrite E.
 Qed.
 
@@ -387,7 +431,7 @@ Proof.
   - trivial.
   - cbn [existsb]. intros ->. reflexivity.
   - apply (client_reg_guard cl (ag_permute (orc a site) cl) u e (ag_permute_perm _ _)).
-  - apply (client_reg_guard cl cl u e (Permutation_refl _)).
+  - apply (ws_reg_guard cl u e).
 Qed.
 
 Lemma mux_has_cons orc site a g ch e :
@@ -428,8 +472,9 @@ Proof.
     cbn [existsb] in H. now rewrite orb_false_r in H.
   - destruct (clients_has_registered cl _ e WF (ag_permute_perm _ _) H) as [u Hu].
     exists (RRest a u). split; [reflexivity|]. cbn [ag_registered ag_get]. now rewrite N.eqb_refl.
-  - destruct (clients_has_registered cl cl e WF (Permutation_refl _) H) as [u Hu].
-    exists (RWs a u). split; [reflexivity|]. cbn [ag_registered ag_get]. now rewrite N.eqb_refl.
+  - destruct (clients_has_registered (ag_ws_reg cl) (ag_ws_reg cl) e (ws_reg_nodup cl WF) (Permutation_refl _) H) as [u Hu].
+    exists (RWs a u). split; [reflexivity|]. cbn [ag_registered ag_get]. rewrite N.eqb_refl.
+    fold (ws_client_reg cl u e). now rewrite (ws_client_reg_eq cl u e WF).
 Qed.
 
 Lemma registered_of_mux_has orc site ch e :
@@ -523,7 +568,7 @@ Proof. destruct g as [| |cl mb|cl]; cbn; trivial; destruct cl; try discriminate;
 
 Lemma step_wf s ev s' o : wf_ch (ast_ch s) -> ag_step s ev = Some (s', o) -> wf_ch (ast_ch s').
 Proof.
-  intros WF. destruct ev as [a g|a u e|a u|a u|a c e|a c|b orc]; cbn [ag_step].
+  intros WF. destruct ev as [a g|a u e|a u|a u|a c e|a c|a c|a c oe|b orc]; cbn [ag_step].
   - destruct (ag_get a (ast_ch s)) eqn:G; [discriminate|].
     destruct (ag_agent_initial g) eqn:I; [|discriminate]. intros H; inversion H; subst. cbn [ag_set_ch ast_ch].
     apply wf_ch_snoc; auto using initial_wf.
@@ -545,6 +590,19 @@ Proof.
   - destruct (ag_get a (ast_ch s)) as [[| | |cl]|] eqn:G; try discriminate.
     intros H; inversion H; subst. cbn [ag_set_ch ast_ch]. apply wf_ch_set; [exact WF|].
     cbn [wf_agent]. apply ag_del_nodup. exact (wf_ch_get _ _ _ WF G).
+  - destruct (ag_get a (ast_ch s)) as [[| | |cl]|] eqn:G; try discriminate.
+    destruct (ag_get c cl) eqn:GC; [discriminate|].
+    intros H; inversion H; subst. cbn [ag_set_ch ast_ch]. apply wf_ch_set; [exact WF|].
+    cbn [wf_agent]. rewrite map_app. cbn [map fst]. apply nodup_snoc.
+    + exact (wf_ch_get _ _ _ WF G).
+    + now apply ag_get_none_notin.
+  - destruct (ag_get a (ast_ch s)) as [[| | |cl]|] eqn:G; try discriminate.
+    pose proof (wf_ch_get _ _ _ WF G) as WFg. cbn [wf_agent] in WFg.
+    destruct (ag_get c cl) as [[e0|]|] eqn:GC; [| |discriminate].
+    + intros H; inversion H; subst. cbn [ag_set_ch ast_ch]. apply wf_ch_set; [exact WF|].
+      cbn [wf_agent]. now apply ag_del_nodup.
+    + destruct oe as [e1|]; intros H; inversion H; subst; cbn [ag_set_ch ast_ch]; (apply wf_ch_set; [exact WF|]);
+        cbn [wf_agent]; [now apply ag_set_nodup | now apply ag_del_nodup].
   - intros H. assert (Hs : s' = fst (ag_deliver orc s b)) by (inversion H as [H1]; now rewrite H1).
     rewrite Hs. destruct (deliver_ch orc s b) as [E|E]; rewrite E; [exact WF | now apply fanout_wf].
 Qed.
@@ -681,7 +739,7 @@ Lemma step_conservation s ev s' o a u :
   wf_ch (ast_ch s) -> ag_step s ev = Some (s', o) ->
   ag_mailbox (ast_ch s) a u ++ ag_hands_to (RRest a u) o = ag_consumed a u o ++ ag_mailbox (ast_ch s') a u.
 Proof.
-  intros WF. destruct ev as [a' g|a' u' e|a' u'|a' u'|a' c e|a' c|b orc]; cbn [ag_step].
+  intros WF. destruct ev as [a' g|a' u' e|a' u'|a' u'|a' c e|a' c|a' c|a' c oe|b orc]; cbn [ag_step].
   - destruct (ag_get a' (ast_ch s)) eqn:G; [discriminate|].
     destruct (ag_agent_initial g) eqn:I; [|discriminate]. intros H; inversion H; subst.
     cbn [ag_set_ch ast_ch ag_hands_to ag_consumed app]. rewrite app_nil_r.
@@ -721,6 +779,20 @@ Proof.
     destruct (N.eq_dec a a') as [->|Hne].
     + now rewrite mailbox_set_same, (mailbox_get _ _ _ u G).
     + now rewrite mailbox_set_other.
+  - destruct (ag_get a' (ast_ch s)) as [[| | |cl]|] eqn:G; try discriminate.
+    destruct (ag_get c cl); [discriminate|].
+    intros H; inversion H; subst. cbn [ag_set_ch ast_ch ag_hands_to ag_consumed app]. rewrite app_nil_r.
+    destruct (N.eq_dec a a') as [->|Hne].
+    + now rewrite mailbox_set_same, (mailbox_get _ _ _ u G).
+    + now rewrite mailbox_set_other.
+  - destruct (ag_get a' (ast_ch s)) as [[| | |cl]|] eqn:G; try discriminate.
+    assert (WS : forall cl', ag_mailbox (ast_ch s) a u ++ [] = [] ++ ag_mailbox (ag_set a' (AWs cl') (ast_ch s)) a u).
+    { intros cl'. rewrite app_nil_r. cbn [app]. destruct (N.eq_dec a a') as [->|Hne].
+      - now rewrite mailbox_set_same, (mailbox_get _ _ _ u G).
+      - now rewrite mailbox_set_other. }
+    destruct (ag_get c cl) as [[e0|]|]; [| |discriminate].
+    + intros H; inversion H; subst. cbn [ag_set_ch ast_ch ag_hands_to ag_consumed]. apply WS.
+    + destruct oe as [e1|]; intros H; inversion H; subst; cbn [ag_set_ch ast_ch ag_hands_to ag_consumed]; apply WS.
   - intros H. assert (Hs : s' = fst (ag_deliver orc s b) /\ o = snd (ag_deliver orc s b))
       by (inversion H as [H1]; now rewrite H1).
     destruct Hs as [-> ->]. now apply deliver_mailbox.
@@ -809,7 +881,7 @@ Lemma step_ack s ev s' o pre x post b :
   wf_ch (ast_ch s) -> ag_step s ev = Some (s', o) -> o = pre ++ x :: post -> is_ack b x ->
   exists r, In (AOHand r b) pre.
 Proof.
-  intros WF. destruct ev as [a' g|a' u' e|a' u'|a' u'|a' c e|a' c|b0 orc]; cbn [ag_step].
+  intros WF. destruct ev as [a' g|a' u' e|a' u'|a' u'|a' c e|a' c|a' c|a' c oe|b0 orc]; cbn [ag_step].
   - destruct (ag_get a' (ast_ch s)); [discriminate|]. destruct (ag_agent_initial g); [|discriminate].
     intros H; inversion H; subst. intros H2. destruct pre; discriminate.
   - destruct (ag_get a' (ast_ch s)) as [[| |cl mb|]|]; try discriminate.
@@ -822,6 +894,11 @@ Proof.
     intros H; inversion H; subst. intros H2. destruct pre; discriminate.
   - destruct (ag_get a' (ast_ch s)) as [[| | |cl]|]; try discriminate.
     intros H; inversion H; subst. intros H2. destruct pre; discriminate.
+  - destruct (ag_get a' (ast_ch s)) as [[| | |cl]|]; try discriminate. destruct (ag_get c cl); [discriminate|].
+    intros H; inversion H; subst. intros H2. destruct pre; discriminate.
+  - destruct (ag_get a' (ast_ch s)) as [[| | |cl]|]; try discriminate.
+    destruct (ag_get c cl) as [[e0|]|]; [| |discriminate]; [|destruct oe as [e1|]];
+      intros H; inversion H; subst; intros H2; destruct pre; discriminate.
   - intros H Ho A. assert (Hs : o = snd (ag_deliver orc s b0)) by (inversion H as [H1]; now rewrite H1).
     rewrite Hs in Ho. destruct (deliver_ack orc s b0 b pre x post WF Ho A) as [-> [r [_ Hin]]]. now exists r.
 Qed.
@@ -1076,6 +1153,187 @@ Theorem ack_step node peers h s outs :
   b' = b /\ exists r, ag_registered (ast_ch s) r (ab_dst b) = true /\ In (AOHand r b) pre.
 Proof.
   intros RN orc b b' pre x post. apply deliver_ack. exact (run_wf h _ _ _ (init_wf node peers) RN).
+Qed.
+
+(* ------------------------------------------------------------------------------------ *)
+(* nobody registered for the destination: nobody is handed the bundle, no report, no release *)
+Lemma in_hands r b outs : In (AOHand r b) outs -> In b (ag_hands_to r outs).
+Proof.
+  assert (RF : forall x, ag_recipient_eqb x x = true)
+    by (intros x; destruct x; cbn [ag_recipient_eqb]; rewrite ?N.eqb_refl; reflexivity).
+  induction outs as [|o outs IH]; cbn [ag_hands_to In]; [tauto|].
+  intros [H|H].
+  - subst o. rewrite RF. now left.
+  - destruct o; try (now apply IH). destruct (ag_recipient_eqb r r0); [right|]; now apply IH.
+Qed.
+
+Theorem nobody_run node peers h s outs :
+  ag_run (ag_init node peers) h = Some (s, outs) ->
+  forall b orc, (forall r, ag_registered (ast_ch s) r (ab_dst b) = false) ->
+  forall x, In x (snd (ag_deliver orc s b)) -> ag_is_evidence x = false.
+Proof.
+  intros RN b orc NR x Hin.
+  destruct (exact_run node peers h s outs RN b orc) as [_ [EX [DU _]]].
+  destruct x as [r0 b0| | b0 | b0 | | | |]; try reflexivity; exfalso.
+  - destruct (existsb (N.eqb (ab_id b)) (ast_known s)) eqn:HK.
+    + rewrite (DU eq_refl) in Hin. destruct Hin as [Hin|[]]. discriminate.
+    + apply in_hands in Hin. rewrite (EX eq_refl r0), (NR r0) in Hin. destruct Hin.
+  - apply in_split in Hin. destruct Hin as [pre [post Hs]].
+    destruct (ack_step node peers h s outs RN orc b b0 pre _ post Hs (or_introl eq_refl)) as [_ [r [R _]]].
+    rewrite (NR r) in R. discriminate.
+  - apply in_split in Hin. destruct Hin as [pre [post Hs]].
+    destruct (ack_step node peers h s outs RN orc b b0 pre _ post Hs (or_intror eq_refl)) as [_ [r [R _]]].
+    rewrite (NR r) in R. discriminate.
+Qed.
+
+(* ------------------------------------------------------------------------------------ *)
+(* what other agents and clients do (register, unregister, connect, disconnect, fetch, other
+   deliveries) does not change for which endpoints a recipient is registered *)
+Lemma ag_get_snoc_other {V} k k' (v : V) m : k <> k' -> ag_get k (m ++ [(k', v)]) = ag_get k m.
+Proof.
+  intros H. induction m as [|[k0 v0] m IH]; cbn [app ag_get].
+  - apply N.eqb_neq in H. now rewrite H.
+  - destruct (k =? k0); [reflexivity | exact IH].
+Qed.
+
+Lemma registered_get_eq ch1 ch2 r e :
+  ag_get (rlabel r) ch1 = ag_get (rlabel r) ch2 -> ag_registered ch1 r e = ag_registered ch2 r e.
+Proof. destruct r; cbn [ag_registered rlabel]; intros ->; reflexivity. Qed.
+
+Lemma registered_get_same ch a g r e :
+  rlabel r = a -> ag_get a ch = Some g -> ag_registered ch r e = ag_registered [(a, g)] r e.
+Proof. destruct r; cbn [rlabel ag_registered ag_get]; intros -> ->; rewrite N.eqb_refl; reflexivity. Qed.
+
+Lemma agent_swap_registered ch a g0 g1 r e :
+  ag_get a ch = Some g0 ->
+  (rlabel r = a -> ag_registered [(a, g1)] r e = ag_registered [(a, g0)] r e) ->
+  ag_registered (ag_set a g1 ch) r e = ag_registered ch r e.
+Proof.
+  intros G H. destruct (N.eq_dec (rlabel r) a) as [E|E].
+  - rewrite (registered_get_same (ag_set a g1 ch) a g1 r e E (ag_get_set_same _ _ _)).
+    rewrite (registered_get_same ch a g0 r e E G). now apply H.
+  - apply registered_get_eq. now apply ag_get_set_other.
+Qed.
+
+Lemma rest_swap a cl cl' mb mb' r e :
+  (forall u, r = RRest a u -> ag_get u cl' = ag_get u cl) ->
+  ag_registered [(a, ARest cl' mb')] r e = ag_registered [(a, ARest cl mb)] r e.
+Proof.
+  intros H. destruct r as [a0|a0|a0 u|a0 u]; cbn [ag_registered ag_get]; destruct (a0 =? a) eqn:E; try reflexivity.
+  apply N.eqb_eq in E. subst a0. now rewrite (H u eq_refl).
+Qed.
+
+Lemma ws_swap a cl cl' r e :
+  (forall c, r = RWs a c -> ag_get c cl' = ag_get c cl) ->
+  ag_registered [(a, AWs cl')] r e = ag_registered [(a, AWs cl)] r e.
+Proof.
+  intros H. destruct r as [a0|a0|a0 u|a0 u]; cbn [ag_registered ag_get]; destruct (a0 =? a) eqn:E; try reflexivity.
+  apply N.eqb_eq in E. subst a0. now rewrite (H u eq_refl).
+Qed.
+
+Lemma touch_rest_key a u u' : ag_recipient_eqb (RRest a u') (RRest a u) = false -> u' <> u.
+Proof. cbn [ag_recipient_eqb]. rewrite N.eqb_refl. cbn [andb]. now apply N.eqb_neq. Qed.
+Lemma touch_ws_key a c c' : ag_recipient_eqb (RWs a c') (RWs a c) = false -> c' <> c.
+Proof. cbn [ag_recipient_eqb]. rewrite N.eqb_refl. cbn [andb]. now apply N.eqb_neq. Qed.
+
+Lemma touches_reg a g r : ag_ev_touches (AERegAgent a g) r = (a =? rlabel r).
+Proof. destruct r; reflexivity. Qed.
+
+Lemma step_registered_stable s ev s' o r e :
+  ag_step s ev = Some (s', o) -> ag_ev_touches ev r = false ->
+  ag_registered (ast_ch s') r e = ag_registered (ast_ch s) r e.
+Proof.
+  destruct ev as [a g|a u e0|a u|a u|a c e0|a c|a c|a c oe|b orc]; cbn [ag_step ag_ev_touches].
+  - destruct (ag_get a (ast_ch s)) eqn:G; [discriminate|].
+    destruct (ag_agent_initial g); [|discriminate]. intros H T; inversion H; subst. cbn [ag_set_ch ast_ch].
+    fold (ag_ev_touches (AERegAgent a g) r) in T. rewrite touches_reg in T. apply N.eqb_neq in T.
+    apply registered_get_eq. destruct (ag_get (rlabel r) (ast_ch s)) eqn:Gr.
+    + now apply ag_get_app_some.
+    + rewrite (ag_get_app_none _ _ _ Gr). cbn [ag_get].
+      destruct (rlabel r =? a) eqn:E; [apply N.eqb_eq in E; congruence | reflexivity].
+  - destruct (ag_get a (ast_ch s)) as [[| |cl mb|]|] eqn:G; try discriminate.
+    intros H T; inversion H; subst. cbn [ag_set_ch ast_ch].
+    apply (agent_swap_registered _ a (ARest cl mb)); [exact G|]. intros _. apply rest_swap.
+    intros u' ->. apply ag_get_set_other. now apply touch_rest_key with (a := a).
+  - destruct (ag_get a (ast_ch s)) as [[| |cl mb|]|] eqn:G; try discriminate.
+    intros H T; inversion H; subst. cbn [ag_set_ch ast_ch].
+    apply (agent_swap_registered _ a (ARest cl mb)); [exact G|]. intros _. apply rest_swap.
+    intros u' ->. apply ag_get_del_other. now apply touch_rest_key with (a := a).
+  - destruct (ag_get a (ast_ch s)) as [[| |cl mb|]|] eqn:G; try discriminate.
+    intros H T; inversion H; subst. cbn [ag_set_ch ast_ch].
+    apply (agent_swap_registered _ a (ARest cl mb)); [exact G|]. intros _. apply rest_swap. reflexivity.
+  - destruct (ag_get a (ast_ch s)) as [[| | |cl]|] eqn:G; try discriminate.
+    destruct (ag_get c cl); [discriminate|].
+    intros H T; inversion H; subst. cbn [ag_set_ch ast_ch].
+    apply (agent_swap_registered _ a (AWs cl)); [exact G|]. intros _. apply ws_swap.
+    intros c' ->. apply ag_get_snoc_other. now apply touch_ws_key with (a := a).
+  - destruct (ag_get a (ast_ch s)) as [[| | |cl]|] eqn:G; try discriminate.
+    intros H T; inversion H; subst. cbn [ag_set_ch ast_ch].
+    apply (agent_swap_registered _ a (AWs cl)); [exact G|]. intros _. apply ws_swap.
+    intros c' ->. apply ag_get_del_other. now apply touch_ws_key with (a := a).
+  - destruct (ag_get a (ast_ch s)) as [[| | |cl]|] eqn:G; try discriminate.
+    destruct (ag_get c cl); [discriminate|].
+    intros H T; inversion H; subst. cbn [ag_set_ch ast_ch].
+    apply (agent_swap_registered _ a (AWs cl)); [exact G|]. intros _. apply ws_swap.
+    intros c' ->. apply ag_get_snoc_other. now apply touch_ws_key with (a := a).
+  - destruct (ag_get a (ast_ch s)) as [[| | |cl]|] eqn:G; try discriminate.
+    assert (DEL : ag_ev_touches (AEWsRegister a c oe) r = false ->
+                  ag_registered (ag_set a (AWs (ag_del c cl)) (ast_ch s)) r e = ag_registered (ast_ch s) r e).
+    { cbn [ag_ev_touches]. intros T. apply (agent_swap_registered _ a (AWs cl)); [exact G|]. intros _. apply ws_swap.
+      intros c' ->. apply ag_get_del_other. now apply touch_ws_key with (a := a). }
+    cbn [ag_ev_touches] in DEL.
+    destruct (ag_get c cl) as [[e1|]|]; [| |discriminate].
+    + intros H T; inversion H; subst. cbn [ag_set_ch ast_ch]. now apply DEL.
+    + destruct oe as [e2|]; intros H T; inversion H; subst; cbn [ag_set_ch ast_ch]; [|now apply DEL].
+      apply (agent_swap_registered _ a (AWs cl)); [exact G|]. intros _. apply ws_swap.
+      intros c' ->. apply ag_get_set_other. now apply touch_ws_key with (a := a).
+  - intros H _. assert (Hs : s' = fst (ag_deliver orc s b)) by (inversion H as [H1]; now rewrite H1).
+    rewrite Hs. destruct (deliver_ch orc s b) as [E|E]; rewrite E; [reflexivity | apply fanout_registered].
+Qed.
+
+Lemma run_registered_stable h : forall s s' o r e,
+  ag_run s h = Some (s', o) -> forallb (fun ev => negb (ag_ev_touches ev r)) h = true ->
+  ag_registered (ast_ch s') r e = ag_registered (ast_ch s) r e.
+Proof.
+  induction h as [|ev h IH]; intros s s' o r e; cbn [ag_run forallb].
+  - intros H _; inversion H; now subst.
+  - destruct (ag_step s ev) as [[s1 o1]|] eqn:ST; [|discriminate].
+    destruct (ag_run s1 h) as [[s2 o2]|] eqn:RN; [|discriminate].
+    intros H T; inversion H; subst. apply andb_true_iff in T. destruct T as [T1 T2].
+    apply negb_true_iff in T1.
+    rewrite (IH s1 s' o2 r e RN T2). exact (step_registered_stable s ev s1 o1 r e ST T1).
+Qed.
+
+Lemma run_app h1 : forall h2 s s1 o1 s2 o2,
+  ag_run s h1 = Some (s1, o1) -> ag_run s1 h2 = Some (s2, o2) -> ag_run s (h1 ++ h2) = Some (s2, o1 ++ o2).
+Proof.
+  induction h1 as [|ev h1 IH]; intros h2 s s1 o1 s2 o2; cbn [ag_run app].
+  - intros H; inversion H; subst. intros ->. reflexivity.
+  - destruct (ag_step s ev) as [[sa oa]|]; [|discriminate].
+    destruct (ag_run sa h1) as [[sb ob]|] eqn:RN; [|discriminate].
+    intros H; inversion H; subst. intros H2. rewrite (IH h2 sa s1 ob s2 o2 RN H2). now rewrite app_assoc.
+Qed.
+
+(* a recipient registered for e stays the recipient of every bundle for e that arrives while
+   *other* agents and clients come and go *)
+Theorem amid_others node peers h s outs h' s' outs' r :
+  ag_run (ag_init node peers) h = Some (s, outs) ->
+  ag_run s h' = Some (s', outs') ->
+  forallb (fun ev => negb (ag_ev_touches ev r)) h' = true ->
+  forall b orc,
+    ag_registered (ast_ch s) r (ab_dst b) = true ->
+    existsb (N.eqb (ab_id b)) (ast_known s') = false ->
+    ag_mux_has orc 0%nat (ast_ch s') (ab_dst b) = true
+    /\ ag_hands_to r (snd (ag_deliver orc s' b)) = [b]
+    /\ filter ag_is_sent (snd (ag_deliver orc s' b)) = [].
+Proof.
+  intros RN RN' T b orc R HK.
+  pose proof (run_registered_stable h' s s' outs' r (ab_dst b) RN' T) as ST. rewrite R in ST.
+  pose proof (run_app h h' _ _ _ _ _ RN RN') as RA.
+  destruct (exact_run node peers (h ++ h') s' (outs ++ outs') RA b orc) as [_ [EX [_ NS]]].
+  split; [exact (mux_has_of_registered orc 0%nat _ _ _ ST)|]. split.
+  - rewrite (EX HK r), ST. reflexivity.
+  - apply NS. now exists r.
 Qed.
 
 (* witnesses for the code without the mutex *)
